@@ -42,6 +42,7 @@ class BaseServer:
         self.not_handled = object()
 
         self._binary_packet = {}
+        self._ending = set()
 
         if not isinstance(logger, bool):
             self.logger = logger
